@@ -19,7 +19,8 @@ Import ListNotations.
 Require Import Fggs.Model.GraphAPI.
 Require Import Fggs.Proofs.GraphAPI_wf Fggs.Proofs.GraphAPI_inv Fggs.Proofs.GraphAPI_oracle
         Fggs.Proofs.GraphAPI_atomic Fggs.Proofs.GraphAPI_frame Fggs.Proofs.GraphAPI_eq
-        Fggs.Proofs.GraphAPI_copy Fggs.Proofs.GraphAPI_refuted Fggs.Proofs.GraphAPI_examples.
+        Fggs.Proofs.GraphAPI_copy Fggs.Proofs.GraphAPI_refuted Fggs.Proofs.GraphAPI_examples
+        Fggs.Proofs.GraphAPI_weights.
 
 (** * (A) C16_inv *)
 Theorem C16_inv_init : inv init.
@@ -147,6 +148,41 @@ Theorem C16_copy_independent :
                nth_error (objs (run s' ops)) k = nth_error (objs s') k).
 Proof. exact copy_independent. Qed.
 Print Assumptions C16_copy_independent.
+
+(** * (A) C16_copy, weights: a copy owns the storage of its factor weights *)
+(** an in-place update of the weights of a bound factor ([fac.weights *= c], [.physical.fill_],
+    [copy_], the setter, ...: [UpdWeights]) succeeds, keeps label tables, domains and the keys of
+    the factor dict, and changes exactly the named factor's weights *)
+Theorem C16_update_weights_spec :
+  forall t n u f, aget Nat.eq_dec (t_fac t) n = Some f ->
+    let t' := fst (t_upd_weights t n u) in
+    snd (t_upd_weights t n u) = ROk /\
+    t_nl t' = t_nl t /\ t_el t' = t_el t /\ t_dom t' = t_dom t /\
+    map fst (t_fac t') = map fst (t_fac t) /\
+    forall m, aget Nat.eq_dec (t_fac t') m
+              = if Nat.eq_dec n m then Some (f_upd u f) else aget Nat.eq_dec (t_fac t) m.
+Proof. exact upd_weights_spec. Qed.
+Print Assumptions C16_update_weights_spec.
+
+(** after a successful copy of an object that carries a factor [f] under [name]: updating that
+    factor's weights in place IN THE COPY succeeds, leaves the original object exactly as it was
+    and gives the copy the weights [f_upd u f]; the same update IN THE ORIGINAL leaves the copy
+    exactly as it was.  ([C16_frame], [C16_failure_atomic] and [C16_copy_independent] quantify
+    over all calls and therefore cover [UpdWeights] as well.) *)
+Theorem C16_copy_update_weights :
+  forall s h a name u via f,
+    inv s -> nth_error (objs s) h = Some a -> has_interp a = true ->
+    aget Nat.eq_dec (t_fac (tab_of a)) name = Some f ->
+    snd (step s (Copy h)) = ROk ->
+    let s1 := fst (step s (Copy h)) in
+    let c := length (objs s) in
+    (snd (step s1 (UpdWeights c name u via)) = ROk /\
+     nth_error (objs (fst (step s1 (UpdWeights c name u via)))) h = Some a /\
+     exists x, nth_error (objs (fst (step s1 (UpdWeights c name u via)))) c = Some x /\
+               aget Nat.eq_dec (t_fac (tab_of x)) name = Some (f_upd u f)) /\
+    (nth_error (objs (fst (step s1 (UpdWeights h name u via)))) c = nth_error (objs s1) c).
+Proof. exact copy_update_weights. Qed.
+Print Assumptions C16_copy_update_weights.
 
 (** * (A) C16_eq_equiv *)
 Theorem C16_eq_refl : forall os a, inv_os os -> In a os -> obj_eqb os a a = true.
